@@ -195,6 +195,12 @@ def classify(comp, v, roots=None, sc_roots=None):
                 return ("finally-abrupt-exit-leaves-parked-return",
                         f"'{block['name']}': a break/continue out of a finally block abandons the return value parked on the stack "
                         f"(depth {max(a1, a2)} vs {min(a1, a2)} at {pc}, from {big})")
+    if kind == "exc-bind-underflow" and sc_roots is not None and b in sc_roots:
+        return ("short-circuit-assign-leaves-binding-reference",
+                f"'{block['name']}': a handler was set up on the path that carries the binding reference left by a short-circuit assignment ({op}@{pc})")
+    if kind == "exc-args-underflow" and roots is not None and b in roots:
+        return ("finally-abrupt-exit-leaves-parked-return",
+                f"'{block['name']}': a handler was set up on the path that carries an abandoned parked return value ({op}@{pc})")
     if kind == "return-depth" and sc_roots is not None and b in sc_roots:
         return ("short-circuit-assign-leaves-binding-reference",
                 f"'{block['name']}': Return@{pc} with the binding reference left by a short-circuit assignment")
@@ -202,20 +208,40 @@ def classify(comp, v, roots=None, sc_roots=None):
     return sig, f"{kind} at {op}@{pc} of '{block['name']}' info={info}"
 
 
+def has_short_circuit_locator(block):
+    """The block contains `GetNameAndLocator r; LogicalAnd|LogicalOr|Coalesce r -> L` (a short-circuit assignment to a
+    non-lexical binding): the jump to L leaves the binding reference behind, whether or not the other path is live."""
+    code = block["code"]
+    return any(code[k]["op"] in SC_OPS and code[k - 1]["op"] == "GetNameAndLocator"
+               and code[k - 1]["a"].get("dst") == code[k]["a"].get("value") for k in range(1, len(code)))
+
+
+def has_abrupt_finally_exit(block):
+    """The block contains a finally block (region of a JumpTable) with a jump that leaves it other than through the
+    JumpTable (break / continue out of finally): a return value parked on the stack is abandoned on that edge."""
+    regions = finally_regions(block)
+    for lo, hi in regions:
+        for i in block["code"]:
+            if lo <= i["pc"] < hi and i["op"] != "JumpTable":
+                t = i["a"].get("address")
+                if isinstance(t, int) and not (lo <= t <= hi):
+                    return True
+    return False
+
+
 def classify_all(comp, viols):
     """Classifies all violations of one compilation.  A leak identified in a block explains the other disagreements
     of the same stack in that block (the surplus travels around loops and down to Return): parked return values for
-    the value stack, short-circuit assignments for the binding-reference stack."""
+    the value stack, short-circuit assignments for the binding-reference stack.  The leaking construct is identified
+    from the code itself, because the path that would disagree with it at the join can be dead."""
     roots = set()
     sc_roots = set()
-    for v in viols:
-        if v[0] == "merge-mismatch" and len(v[3]) == 8:
-            e1, b1, a1, s1, e2, b2, a2, s2 = v[3]
-            block = comp["blocks"][v[1] - 1]
-            if e1 == e2 and b1 == b2 and a1 != a2 and leaves_finally(block, s1 if a1 > a2 else s2, v[2]):
-                roots.add(v[1])
-            if sc_root(block, v[2], v[3]):
-                sc_roots.add(v[1])
+    for b in {v[1] for v in viols}:
+        block = comp["blocks"][b - 1]
+        if has_short_circuit_locator(block):
+            sc_roots.add(b)
+        if has_abrupt_finally_exit(block):
+            roots.add(b)
     return [classify(comp, v, roots, sc_roots) for v in viols]
 
 
